@@ -141,6 +141,10 @@ class Range(HeaderElement):
 
 	def get_range_content(self, fd: BytesIO) -> Iterator[bytes]:
 		for offset, whence, length in self.positions:
+			if whence == SEEK_END:
+				# a suffix longer than the representation selects all of it (RFC 7233 Section 2.1); a real file refuses to seek in front of its start
+				fd.seek(0, SEEK_END)
+				offset, whence = max(fd.tell() + offset, 0), SEEK_SET
 			fd.seek(offset, whence)
 			length = () if length is None else (length, )
 			yield fd.read(*length)
